@@ -16,6 +16,17 @@ fn verdict<T, E>(r: Result<T, E>, render: impl Fn(&T) -> Vec<String>) -> Value {
     }
 }
 
+/// the server's auth entry paths: `Authorization: Bearer <s>` and `Cookie: sid=<s>` (null when <s> cannot be a header value)
+fn auth_path(s: &str, cookie: bool, r: impl Fn(&BearerToken) -> Vec<String>) -> Value {
+    let text = if cookie { format!("sid={s}") } else { format!("Bearer {s}") };
+    let Ok(value) = http::HeaderValue::from_bytes(text.as_bytes()) else { return Value::Null };
+    let mut req = http::Request::new(());
+    req.headers_mut().insert(if cookie { http::header::COOKIE } else { http::header::AUTHORIZATION }, value);
+    let (parts, ()) = req.into_parts();
+    let res = if cookie { conjure_http::private::parse_cookie_auth(&parts, "sid=") } else { conjure_http::private::parse_header_auth(&parts) };
+    verdict(res, r)
+}
+
 fn token_paths(s: &str) -> Value {
     let doc = serde_json::to_string(s).unwrap();
     let smile = conjure_serde::smile::to_vec(&s).unwrap();
@@ -31,6 +42,8 @@ fn token_paths(s: &str) -> Value {
         "smile": verdict(conjure_serde::smile::server_from_slice::<BearerToken>(&smile), r),
         "any": verdict(Any::new(s).unwrap().deserialize_into::<BearerToken>(), r),
         "from_plain": verdict(BearerToken::from_plain(s), r),
+        "auth_header": auth_path(s, false, r),
+        "auth_cookie": auth_path(s, true, r),
         "debug_redacted": BearerToken::from_str(s).map(|t| !format!("{t:?}").contains(s) || s == "REDACTED" || "BearerToken(\"REDACTED\")".contains(s)).unwrap_or(true),
     })
 }
